@@ -1,9 +1,10 @@
 (* Extract_c05.v — extraction of the approximate-algorithm models (group "c05": C05 / C06).  ExtrOcamlBasic only. *)
 From Coq Require Extraction ExtrOcamlBasic.
 From Coq Require Import ZArith.
-From Parmcb Require Import SpannerModel DijkstraModel ApproxModel.
+From Parmcb Require Import SpannerModel DijkstraModel ApproxModel ApproxTreesModel ApproxParModel.
 Extraction Language OCaml.
 Set Extraction Optimize.
 Extraction "model.ml"
   Z.add Z.mul Z.opp Z.div_eucl Z.of_nat Z.to_nat Z.compare Z.eqb
-  construct_spanner spanner_weights dijkstra approx_run approx_sva_signed_Z approx_sva_given.
+  construct_spanner spanner_weights dijkstra approx_run approx_sva_signed_Z approx_sva_given
+  approx_sva_fvs_trees_Z approx_run_tbb approx_sva_signed_tbb_Z approx_sva_given_tbb.
